@@ -24,7 +24,7 @@ def main():
         if r.get('kind') != 'failing-input' or not bb: return 1
         f = os.path.join(WORK, 'replay_c18.txt'); open(f, 'w').write(r['case'] + '\n')
         rc, lines = run_lines([bb, 'mem', f]); print('\n'.join(lines)); return 0
-    consts = step_translate(res, ['ordered', 'derive_ordered_entry'])
+    consts = step_translate(res, ['ordered', 'derive_ordered_entry', 'arith_ordered'])
     step_proofs(res, PROP, ['props/C18.vo'])
     if a.tier == 'thorough':
         coqchk(res, ['Props.C18'])
